@@ -64,7 +64,10 @@ def _run_one_shard(arg):
         mod = importlib.import_module(f'tcv.props.{pid}')
         rec.findings = getattr(mod, 'FINDINGS', {})
         rec.open_ids = hyp.open_finding_ids(pid)
-        mod.run_shard(shard, shard_seed(pid, seed, k), tier, rec)
+        if shard.get('kind') == '__regressions__':
+            _run_regressions(mod, shard, rec)
+        else:
+            mod.run_shard(shard, shard_seed(pid, seed, k), tier, rec)
     except BaseException:
         rec.harness_errors.append(traceback.format_exc())
     out = rec.summary()
@@ -81,6 +84,24 @@ def _run_one_shard(arg):
     sys.stdout.flush()
     sys.stderr.flush()
     return out
+
+
+def _run_regressions(mod, shard, rec):
+    """Replay tier: saved minimal cases (regressions/<ID>/*.json: the shrunk failing case of every repaired defect and of
+    every seeded change that was caught), evaluated by the property's own oracle WITHOUT Hypothesis."""
+    from tcv import hyp
+    for path in shard['files']:
+        doc = json.loads(Path(path).read_text())
+        try:
+            with hyp.quiet_output():
+                mod.replay(doc, rec)
+        except hyp.Violation as v:
+            if isinstance(v.detail, dict):
+                v.detail = dict(v.detail, regression_file=os.path.basename(path))
+            rec.fail_now(doc.get('case'), v, kind=doc.get('kind'))
+        except hyp.Inconclusive as e:
+            rec.inconclusive.append(str(e))
+        rec.cls('regression-replays')
 
 
 def _merge(summaries):
@@ -221,6 +242,10 @@ def main(argv=None):
     t0 = time.time()
     shards = mod.plan(args.tier)
     logdir = tempfile.mkdtemp(prefix=f'tcv-{pid}-log-')
+    reg = sorted(str(p) for p in (ROOT / 'regressions' / pid).glob('*.json'))
+    if reg:
+        n = min(4, len(reg))
+        shards = list(shards) + [{'kind': '__regressions__', 'files': reg[i::n]} for i in range(n)]
     work = [(pid, sh, seed, args.tier, k, logdir) for k, sh in enumerate(shards)]
     nproc = max(1, min(args.procs, len(work)))
     ctx = multiprocessing.get_context('fork')
